@@ -66,7 +66,8 @@ class ExportConfigFortran(ExportConfig):
             else:
                 if len(shape)>1:
                     dims = ",".join(str(s) for s in shape)
-                    lines.append(f"  {dtype}, dimension ({dims}), parameter :: {name} = reshape([{value}],[{dims}])")
+                    order = ",".join(str(s) for s in range(len(shape),0,-1))  # values are listed in row-major order
+                    lines.append(f"  {dtype}, dimension ({dims}), parameter :: {name} = reshape([{value}],[{dims}],order=[{order}])")
                 else:
                     shape = ",".join(str(s) for s in shape)
                     lines.append(f"  {dtype}, dimension ({shape}) :: {name} = [{value}];")
